@@ -438,3 +438,82 @@ func (g *IG) Flow(init uint32, transfer func(n int, state int) uint32) []uint32 
 	}
 	return in
 }
+
+// ---- loops and block edges ----
+
+// blockEdge returns the instruction-graph edge that corresponds to the CFG
+// edge from block p to its k-th successor.
+func (g *IG) blockEdge(p *ssa.BasicBlock, k int) Edge {
+	return Edge{g.First[p] + len(p.Instrs) - 1, k}
+}
+
+// predEdges returns, for block b, the instruction-graph edge of each incoming
+// CFG edge, in the order of b.Preds (the order of phi operands).
+func (g *IG) predEdges(b *ssa.BasicBlock) []Edge {
+	out := make([]Edge, len(b.Preds))
+	used := map[*ssa.BasicBlock]int{}
+	for i, p := range b.Preds {
+		// the i-th occurrence of p among b.Preds corresponds to the i-th
+		// occurrence of b among p.Succs
+		want := used[p]
+		used[p]++
+		seen := 0
+		for k, s := range p.Succs {
+			if s == b {
+				if seen == want {
+					out[i] = g.blockEdge(p, k)
+					break
+				}
+				seen++
+			}
+		}
+	}
+	return out
+}
+
+// edgeCrosses reports whether every path from the entry that takes edge e has
+// crossed one of the edges in through (e itself counts).
+func (g *IG) edgeCrosses(e Edge, through []Edge) bool {
+	cut := map[Edge]bool{}
+	for _, t := range through {
+		if t == e {
+			return true
+		}
+		cut[t] = true
+	}
+	return !g.Reach([]int{0}, cut, nil)[e.From]
+}
+
+// loopOf returns the header and body of the innermost natural loop containing
+// block b (nil if b is not in a loop).
+func loopOf(b *ssa.BasicBlock) (header *ssa.BasicBlock, body map[*ssa.BasicBlock]bool) {
+	fn := b.Parent()
+	best := -1
+	for _, h := range fn.Blocks {
+		var bd map[*ssa.BasicBlock]bool
+		for _, p := range h.Preds {
+			if !h.Dominates(p) {
+				continue
+			}
+			// natural loop of back edge p->h
+			if bd == nil {
+				bd = map[*ssa.BasicBlock]bool{h: true}
+			}
+			work := []*ssa.BasicBlock{p}
+			for len(work) > 0 {
+				x := work[len(work)-1]
+				work = work[:len(work)-1]
+				if bd[x] {
+					continue
+				}
+				bd[x] = true
+				work = append(work, x.Preds...)
+			}
+		}
+		if bd != nil && bd[b] && (best < 0 || len(bd) < best) {
+			best = len(bd)
+			header, body = h, bd
+		}
+	}
+	return
+}
